@@ -3,6 +3,7 @@ package props
 import (
 	"encoding/hex"
 	"fmt"
+	"sort"
 	"strings"
 
 	"verif/internal/cbuild"
@@ -208,6 +209,69 @@ func runC03(r *drv.Run) drv.Spec {
 				e.sample(map[string]interface{}{"item": itemDesc(it), "job": strings.TrimSpace(rs.Job.Text), "result": o})
 			}
 		}
+	}
+	// Exhaustive split sweeps with exact-size source allocations: for a few
+	// small inputs per decoder EVERY split point is run with the supplied bytes
+	// ending exactly at the end of their allocation, so a read past the supplied
+	// input is caught by the red zone wherever it happens (the jobs above only
+	// put the end of the whole input, or of a random piece, there).
+	perKind, maxLen := 3, 500
+	if r.Thorough() {
+		perKind, maxLen = 40, 3000
+	}
+	nk := map[string]int{}
+	var sjobs []*wd.Job
+	// valid inputs first (they reach deepest), shortest first; then as many damaged ones
+	cand := append([]*corpus.Item(nil), items...)
+	damaged := func(it *corpus.Item) bool {
+		return strings.HasPrefix(it.Setting, "mutated") || strings.HasPrefix(it.Setting, "random") || strings.HasPrefix(it.Setting, "other")
+	}
+	sort.SliceStable(cand, func(i, j int) bool {
+		if damaged(cand[i]) != damaged(cand[j]) {
+			return !damaged(cand[i])
+		}
+		return len(cand[i].Enc) < len(cand[j].Enc)
+	})
+	nd := map[string]int{}
+	for _, it := range cand {
+		if len(it.Enc) < 8 || len(it.Enc) > maxLen || isHasher(it.Kind) {
+			continue
+		}
+		if damaged(it) {
+			if nd[it.Kind] >= perKind {
+				continue
+			}
+			nd[it.Kind]++
+		} else {
+			if nk[it.Kind] >= perKind {
+				continue
+			}
+			nk[it.Kind]++
+		}
+		base := fmt.Sprintf("job=sweep axis=src salloc=exact kind=%s in=%s cpu=600 maxframes=4", it.Kind, it.Path)
+		if isImage(it.Kind) {
+			base += " pixfmt=bgra wb=max"
+		} else if isToken(it.Kind) {
+			base += " tcap=16"
+		} else {
+			base += " dtotal=100000" + wbFor(it.Kind)
+		}
+		sjobs = append(sjobs, &wd.Job{Text: base + "\n", Tag: it})
+	}
+	for _, rs := range e.run("asan", sjobs, "c03-sweep", 3000) {
+		if rs == nil {
+			continue
+		}
+		it := rs.Job.Tag.(*corpus.Item)
+		desc := itemDesc(it)
+		desc["enc_hex"] = hex.EncodeToString(it.Enc)
+		if !e.commonMonitors("std-safety", "asan", rs, desc) {
+			continue
+		}
+		o := rs.First()
+		e.eval(wd.Num(o, "runs"))
+		e.count("exact_window_sweep_runs", wd.Num(o, "runs"))
+		e.class(fmt.Sprintf("%s|sweep-exact|%s", it.Kind, wd.Str(o, "status")))
 	}
 	return sp
 }
